@@ -19,7 +19,13 @@ CHECKS_FOR = {'C01-B': ['C01', 'C03'], 'C02-B': ['C02', 'C03'],
               'C10-F': ['C10', 'C08'], 'C15-E': ['C15', 'C07'],
               'C03-E': ['C03', 'C01'], 'C14-E': ['C14', 'C01'],
               'C04-E': ['C04', 'C11'], 'C11-E': ['C11', 'C03'],
-              'C03-F': ['C03', 'C04']}
+              'C03-F': ['C03', 'C04'],
+              # round 4
+              'C02-H': ['C02', 'C03'], 'C05-G': ['C05', 'C04'],
+              'C05-H': ['C05', 'C01'], 'C08-G': ['C08', 'C16'],
+              'C04-G': ['C04', 'C16'], 'C08-H': ['C08', 'C14'],
+              'C09-G': ['C09', 'C16'], 'C09-H': ['C09', 'C04'],
+              'C10-H': ['C10', 'C16', 'C17'], 'C03-H': ['C03', 'C17']}
 
 
 def one(sid, suite):
